@@ -296,7 +296,7 @@ pub fn c15(a: &Args, rep: &mut Report) {
         return;
     }
     let szs: Vec<usize> = if a.tier == "thorough" { vec![1, 2, 3, 4, 5, 8, 13, 27, 50, 100, 200, 400] } else { vec![1, 2, 3, 4, 5, 8, 13, 27, 50, 100] };
-    let n = ncases(a, 3000, 60000);
+    let n = ncases(a, 12000, 100000);
     run_parallel(rep, n, budget(a, 100., 900.), |k, rep| {
         let o = GenOpts {
             sizes: &szs,
@@ -484,7 +484,7 @@ pub fn c18(a: &Args, rep: &mut Report) {
     rep.rule = "cases = seeded 3D inputs (uniform, exact lattices with large tie sets, clusters; periodic or not); for 3 cells per input the production clip sequence is replayed step by step with the real clip primitive; before every clip that removes vertices the vertex array is permuted (ALL orders of the removed set for <= 5 removed vertices, 8-40 random full permutations otherwise) and the plane triples rotated, and the canonical result / volume / closedness compared; distinct = distinct input hash; non-trivial = at least one clip removing >= 2 vertices was permuted".into();
     rep.assumptions = vec!["removed sets of more than 5 vertices are sampled, not enumerated".into()];
     let szs: Vec<usize> = if a.tier == "thorough" { vec![2, 3, 5, 8, 13, 27, 64, 125, 300] } else { vec![2, 3, 5, 8, 13, 27, 64, 125] };
-    let n = ncases(a, 2000, 30000);
+    let n = ncases(a, 8000, 60000);
     run_parallel(rep, n, budget(a, 100., 900.), |k, rep| {
         let o = GenOpts {
             sizes: &szs,
